@@ -29,6 +29,12 @@ const SHAPES = {
   identOptsPartial: { args: (s) => `${s}, uName`, user: ['name'] },
   callOpts: { args: (s) => `${s}, mkOpts()`, user: ['props', 'emits', 'name'] },
   condOpts: { args: (s) => `${s}, flag ? uAll : uName`, user: ['props', 'emits', 'name'] },
+  // the options literal under a type-only wrapper is still the literal the user wrote
+  nameAsConst: { args: (s) => `${s}, { name: 'Own' } as const`, user: ['name'] },
+  propsSatisfies: { args: (s) => `${s}, { props: uProps } satisfies object`, user: ['props'] },
+  allParen: { args: (s) => `${s}, ({ props: uProps, emits: uEmits, name: 'Own' })`, user: ['props', 'emits', 'name'] },
+  emitsNonNull: { args: (s) => `${s}, ({ emits: uEmits } as any)!`, user: ['emits'] },
+  otherAsConst: { args: (s) => `${s}, { inheritAttrs: false } as const`, user: [] },
   // accessor / method members count as user-written options too
   propsGetter: { args: (s) => `${s}, { get props() { return uProps; } }`, user: ['props'] },
   propsMethod: { args: (s) => `${s}, { props() { return 1; }, inheritAttrs: false }`, user: ['props'] },
@@ -55,6 +61,8 @@ const DECLS = {
   nestedFn: { tpl: (c) => `function make() { const Inner = ${c}; return Inner; }\nmake();`, decl: 'Inner' },
   multi: { tpl: (c) => `const Before = 1, Cmp = ${c}, After = 2;`, decl: 'Cmp' },
   destructure: { tpl: (c) => `const [Cmp] = [${c}];`, decl: null },
+  // the call is an argument of another component's options (it is not the initialiser of any declaration)
+  inOuterOptions: { tpl: (c) => `const Outer = defineComponent((props: { z: number }) => () => null, { components: { Child: ${c} } });\n__out.comp = Outer;`, decl: null, pick: 'first', vueOnly: true },
   // another component of the same module, before or after (what one call gets must not depend on the other)
   afterOther: { tpl: (c) => `const Other = defineComponent((props: { z: number }, ctx: SetupContext<(e: 'oz') => void>) => () => null, { name: 'OtherOwn', props: uProps });\nconst Cmp = ${c};\n__out.comp = Cmp;`, decl: 'Cmp', pick: 'last', vueOnly: true },
   beforeOther: { tpl: (c) => `const Cmp = ${c};\nconst Other = defineComponent((props: { z: number }) => () => null);\n__out.comp = Cmp;`, decl: 'Cmp', pick: 'first', vueOnly: true },
@@ -63,6 +71,12 @@ const DECLS = {
 const PROV = {
   vue: { pre: "import { defineComponent, SetupContext } from 'vue';", callee: 'defineComponent', vue: true },
   vueWithOthers: { pre: "import { ref, defineComponent, SetupContext, h } from 'vue';", callee: 'defineComponent', vue: true },
+  // several import declarations from 'vue' (what a later one names must not undo an earlier one)
+  vueThenOthers: { pre: "import { defineComponent } from 'vue';\nimport type { SetupContext } from 'vue';\nimport { ref as unusedRef } from 'vue';", callee: 'defineComponent', vue: true },
+  othersThenVue: { pre: "import { ref as unusedRef } from 'vue';\nimport { defineComponent, SetupContext } from 'vue';\nimport { h as unusedH } from 'vue';", callee: 'defineComponent', vue: true },
+  // vue's export under another name next to a foreign function called defineComponent
+  aliasedPlusForeign: { pre: "import { defineComponent as vueDc, SetupContext } from 'vue';\nimport { defineComponent } from 'other-lib';", callee: 'defineComponent', vue: false },
+  aliasedPlusLocal: { pre: "import { defineComponent as vueDc, SetupContext } from 'vue';\nfunction defineComponent(...a) { __out.local.push(a); return a; }", callee: 'defineComponent', vue: false },
   aliased: { pre: "import { defineComponent as dc, SetupContext } from 'vue';", callee: 'dc', vue: 'abstain' },
   aliasedOther: { pre: "import { defineAsyncComponent as defineComponent, SetupContext } from 'vue';", callee: 'defineComponent', vue: false },
   namespace: { pre: "import * as Vue from 'vue';\nimport { SetupContext } from 'vue';", callee: 'Vue.defineComponent', vue: false },
